@@ -885,6 +885,16 @@ public:
             if (auto* fd = dyn_cast<FunctionDecl>(dre->getDecl())) {
                 o["usr"] = usrOf(fd);
             }
+            // a named integral constant ( constexpr int N = 256; static const int K ) : its folded value
+            if (auto* cvd = dyn_cast<VarDecl>(dre->getDecl())) {
+                if (cvd->getType().isConstQualified() && cvd->getType()->isIntegralOrEnumerationType() && !dre->isValueDependent() &&
+                    !isa<ParmVarDecl>(cvd) && cvd->hasGlobalStorage()) {
+                    Expr::EvalResult ev;
+                    if (dre->EvaluateAsInt(ev, ctx_)) {
+                        o["cv"] = static_cast<int64_t>(ev.Val.getInt().getExtValue());
+                    }
+                }
+            }
         } else if (auto* me = dyn_cast<MemberExpr>(s)) {
             o["d"] = declRef(me->getMemberDecl());
             o["arrow"] = me->isArrow();
